@@ -242,10 +242,7 @@ fn replay_one(cfg: &Cfg, idx: u64, path: &[Value], exp: &Value, dr: &Value, s: &
         s.n_mismatch += 1;
         // keep examples of both kinds: histories with an off-grid modify request (a listed known
         // finding lives there) and histories without, so that neither hides the other
-        let offgrid = cfg.tick > 1 && path.iter().any(|l| {
-            (l["op"] == "modify" || (l["op"] == "event" && l["k"] == "modify"))
-                && l["p"].as_i64().map(|x| x >= 0 && x % (cfg.tick as i64) != 0).unwrap_or(false)
-        });
+        let offgrid = bourse_verif_harness::apply::has_offgrid_modify(path, &[cfg.tick]);
         let kept = s.mismatches.iter().filter(|m| m["offgrid_modify"] == json!(offgrid)).count();
         if kept < 12 {
             s.mismatches.push(json!({"what": p, "path": path, "exp": exp, "got": got, "offgrid_modify": offgrid,
